@@ -660,6 +660,13 @@ class Reader:
 
         def entry(b, off):
             self.fields.append((cat * SECTOR + off + 8, 4, 'eltorito-load-rba'))
+            self.fields.append((cat * SECTOR + off + 6, 2, 'eltorito-sector-count'))
+            self.fields.append((cat * SECTOR + off + 1, 1, 'eltorito-media'))
+            rba = u32le(b, 8)
+            if 0 < rba < self.img.nsectors:
+                # a boot info table, if any, sits at bytes 8..23 of the boot file (parsers look at it)
+                for k, name in ((8, 'bit-pvd-extent'), (12, 'bit-file-extent'), (16, 'bit-length'), (20, 'bit-checksum')):
+                    self.fields.append((rba * SECTOR + k, 4, name))
             return {'bootable': b[0] == 0x88, 'indicator': b[0], 'media': b[1] & 0x0f, 'media_flags': b[1] >> 4, 'load_segment': u16le(b, 2), 'system_type': b[4],
                     'sector_count': u16le(b, 6), 'rba': u32le(b, 8), 'selection': b[12], 'offset': off}
         el['initial'] = entry(c[32:64], 32)
@@ -674,6 +681,7 @@ class Reader:
                 if last_seen:
                     self.f.add('eltorito-section', 'section header after the one marked last (0x91)')
                 n = u16le(b, 2)
+                self.fields.append((cat * SECTOR + off + 2, 2, 'eltorito-section-count'))
                 sec = {'indicator': b[0], 'platform': b[1], 'count': n, 'id': b[4:32], 'entries': [], 'offset': off}
                 off += 32
                 for _ in range(n):
